@@ -36,7 +36,9 @@ CHECKS.update({
 })
 CHECKS["C10"] = ("Group.tla (brute-force subgroup closure) + TLC: every (subgroup, <=3 generators) transition of S2-S4 replayed on the real Group via hook H1 and through unions in the e-graph; TraceGroup.tla validates recorded random cases on 5/6 points",
          "membership, enumeration, order, orbits and growth flag agree with the generated subgroup; permuted copies are equal in the e-graph exactly for group members", "5 C10")
-NOTES = {"C19": SMALL_NOTE, "C17": SMALL_NOTE, "C10": SMALL_NOTE}
+CHECKS["C16"] = ("Shape.tla (scoped reference shape, occurrence lists) + TLC: records of the derived Language impl for all 3498 enumerated e-nodes judged by TraceShape.tla (impl->spec), global bijection impl-shape <-> reference renaming class",
+         "the 11 shape / occurrence / syntax laws hold for every enumerated node of the derived language T", "5 C16")
+NOTES = {"C19": SMALL_NOTE, "C17": SMALL_NOTE, "C10": SMALL_NOTE, "C16": SMALL_NOTE}
 PENDING = {}  # filled below for every property without a check yet
 
 man = {
@@ -47,7 +49,7 @@ man = {
    "enable": "rustflags in /verif/harness/.cargo/config.toml: --cfg slotted_egraphs_verif --check-cfg cfg(slotted_egraphs_verif); the harness depends on /repo by path and patches slotted-egraphs-derive to /repo/slotted-egraphs-derive",
    "baseline_off_cmd": "cd /repo && cargo test --workspace --no-fail-fast --offline",
    "source_commits": ["ec9eabe"],
-   "fix_commits": ["c3020f8"],
+   "fix_commits": ["c3020f8", "2a38624", "2db9378"],
    "add_only": True,
  },
  "engines": [
